@@ -225,6 +225,7 @@ Print Assumptions C09_mutations_incl_reassignIds_leave_the_other_side_unchanged.
 Theorem C09_independence_vocabulary_reassign : forall dB (B : positive -> Prop) o,
   xsubj_ok_r dB B o <-> match o with XReassign d => d <> dB | _ => xsubj_ok dB B o end.
 Proof. intros dB B o. destruct o; simpl; tauto. Qed.
+Print Assumptions C09_independence_vocabulary_reassign.
 
 (* non-vacuity: a document with a stream / channel / track format group and a track UID linked to a channel format, deep-copied;
    reassignIds on the copy (after sparse IDs were set there) renumbers the copy and leaves the original's elements as they were *)
